@@ -15,9 +15,21 @@ from .. import crossmodel as cm
 sp = cm.sp
 
 
+def extent(a, b):
+    """the size of the two curves together (diagonal of the box around their defining points) - not their distance from the origin"""
+    pts = []
+    for sg in (a, b):
+        if isinstance(sg, sp.Arc):
+            x0, x1, y0, y1 = sg.bbox()
+            pts += [complex(x0, y0), complex(x1, y1)]
+        else:
+            pts += list(sg.bpoints())
+    return abs(complex(max(z.real for z in pts) - min(z.real for z in pts), max(z.imag for z in pts) - min(z.imag for z in pts)))
+
+
 def check_returned(ck, tag, a, b, res, known, tol, case, allow_none_known=False):
     """soundness of a result list.  known = list of (t1,t2,pt) or None (nothing known)"""
-    size = max(abs(z) for s in (a, b) for z in (s.start, s.end)) + 1
+    size = extent(a, b)
     names = type(a).__name__ + '-' + type(b).__name__
 
     def bad(key, what):
@@ -49,7 +61,7 @@ def pair_case(ck, tag, a, b, known, tol, case):
     ok = check_returned(ck, tag + ' (swapped)', b, a, r2, [(k[1], k[0], k[2]) for k in known] if known is not None else None, tol, case) and ok
     if ok:
         # the same crossing points in both orders
-        size = max(abs(z) for s in (a, b) for z in (s.start, s.end)) + 1
+        size = extent(a, b)
         p1 = [a.point(t1) for t1, _ in r1]
         p2 = [a.point(t2) for _, t2 in r2]
         for p in p1:
@@ -104,6 +116,14 @@ def run(ck):
                     ck.case(fp=('touch', name, str(pr)), nontrivial=True)
                     pair_case(ck, 'touching: line ' + name, x, ln, None, 1e-5, {'pr': pr, 'q': q, 'touch': name})
         ck.sample('%s/Q=%d' % (fam, q), cases[0])
+    # two lines that nearly share an end point, near and far from the origin: a near miss (nothing may be reported) and a crossing close to both ends
+    for O in (0j, 1000 + 1000j, 300000 + 400000j, -7000 + 0.5j):
+        for tag, l1, l2, known in (('near-miss', (0j, 10 + 0j), (10.004 + 0.003j, 14 + 8j), []),
+                                   ('crossing next to the ends', (0j, 10 + 0j), (9.996 - 0.004j, 10 + 0.004j), [(0.9998, 0.5, 9.998 + 0j)]),
+                                   ('near-miss at the starts', (0j, 3 + 4j), (-0.002 - 0.004j, -5 + 1j), [])):
+            a, b = sp.Line(l1[0] + O, l1[1] + O), sp.Line(l2[0] + O, l2[1] + O)
+            ck.case(fp=('lines-near-ends', tag, O), nontrivial=True)
+            pair_case(ck, 'lines %s at %r' % (tag, O), a, b, [(k[0], k[1], k[2] + O) for k in known], 1e-5, {'lines': tag, 'O': str(O)})
     for name, a, b, known in cm.arc_families() + cm.ellipse_families():
         ck.case(fp=('arc', name, repr(a), repr(b)), nontrivial=True)
         pair_case(ck, name, a, b, known, 1e-3, {'family': name, 'a': repr(a), 'b': repr(b)})
@@ -119,10 +139,19 @@ def run(ck):
             q1.end = q1.end + (q1[-1].end - q1[-1].start) * 0.5
         if isinstance(q2[0], sp.Line):
             q2.start = q2.start - (q2[0].end - q2[0].start) * 0.5
-        for A, B in ((p1, p2), (p2, p1), (q1, q2), (q2, q1)):
+        # the same paths with point-like members (a repeated vertex as a zero-length Line, a point-like cubic) at their first joints
+        def padded(P_, mk):
+            segs = list(P_)
+            return sp.Path(*(segs[:1] + [mk(segs[0].end)] + segs[1:])) if len(segs) >= 2 else None
+        z1, z2 = padded(p1, lambda z: sp.Line(z, z)), padded(p2, lambda z: sp.CubicBezier(z, z, z, z))
+        extra = [(z1, p2), (p2, z1)] if z1 is not None else []
+        extra += [(p1, z2), (z2, p1)] if z2 is not None else []
+        for A, B in [(p1, p2), (p2, p1), (q1, q2), (q2, q1)] + extra:
             try:
                 res = A.intersect(B)
             except Exception as e:      # noqa
+                if isinstance(e, ValueError) and 'nodal' in str(e):
+                    continue            # a point-like Bezier against a line is refused with an explicit ValueError: nothing is returned, nothing to judge
                 ck.disagree(key='Path.intersect/raises-' + type(e).__name__, site='svgpathtools/path.py:Path.intersect', what='%s raised %r' % (name, e),
                             case={'family': name}, expected='list', observed=repr(e), driver='path')
                 continue
